@@ -183,6 +183,21 @@ func countFDs(dirs ...string) int {
 	return n
 }
 
+// fileFDs maps descriptor number to target for this process's descriptors that point at paths in the file
+// system (not pipes, sockets, anonymous inodes or devices).
+func fileFDs() map[string]string {
+	out := map[string]string{}
+	es, _ := os.ReadDir("/proc/self/fd")
+	for _, e := range es {
+		target, err := os.Readlink("/proc/self/fd/" + e.Name())
+		if err != nil || !strings.HasPrefix(target, "/") || strings.HasPrefix(target, "/dev/") || strings.HasPrefix(target, "/proc/") {
+			continue
+		}
+		out[e.Name()] = target
+	}
+	return out
+}
+
 func listFiles(dir string) []string {
 	var out []string
 	filepath.Walk(dir, func(p string, info os.FileInfo, err error) error {
@@ -963,15 +978,19 @@ func FuzzC19(f *testing.F) {
 		if u, err := url.Parse(raw); err == nil && (u.Scheme == "file" || u.Scheme == "") {
 			return
 		}
-		fds := countFDs()
+		// descriptors on regular files, by number and target: the fuzz worker's own pipes, epoll descriptors and
+		// files closed by finalizers come and go between two counts and say nothing about zap (DESIGN 9.4)
+		fds := fileFDs()
 		ws, closeFn, err := zap.Open(raw)
 		if err == nil {
 			closeFn()
 		} else if ws != nil || closeFn != nil {
 			t.Fatalf("failed Open(%q) returned results", raw)
 		}
-		if countFDs() != fds {
-			t.Fatalf("fd leak for %q", raw)
+		for fd, target := range fileFDs() {
+			if fds[fd] != target {
+				t.Fatalf("fd leak for %q: descriptor %s -> %s is open after Open returned (err=%v) and was closed", raw, fd, target, err)
+			}
 		}
 	})
 }
